@@ -2,6 +2,8 @@
 package sym
 
 import (
+	"os"
+	"runtime/debug"
 	"crypto/sha1"
 	"fmt"
 	"go/constant"
@@ -130,6 +132,7 @@ type frame struct {
 	tuples   map[ssa.Value][]smt.T
 	addrs    map[ssa.Value]addr
 	closures map[ssa.Value]*ssa.MakeClosure
+	cur      *ssa.BasicBlock // block being executed (for `iter`: which range loop is the innermost one here)
 }
 
 type State struct {
@@ -261,6 +264,9 @@ func (x *Exec) havocHeap(st *State, name string) {
 func (x *Exec) Run() {
 	defer func() {
 		if r := recover(); r != nil {
+			if os.Getenv("GOVC_STACK") != "" {
+				fmt.Fprintf(os.Stderr, "%s\n", debug.Stack())
+			}
 			x.fatal("internal error while executing %s: %v", x.fn.Name(), r)
 		}
 	}()
@@ -290,6 +296,15 @@ func (x *Exec) Run() {
 			st.assume(x.notFresh(sArr(v)))
 		case *types.Struct:
 			x.structNotFresh(st, p.Type(), v)
+		}
+	}
+	// a function literal verified on its own: each captured variable is a pointer to a cell that existed before the call
+	for i, fv := range fn.FreeVars {
+		v := x.ctx.Const("fv$"+fv.Name(), smt.Int)
+		fr.regs[fv] = v
+		st.assume(smt.Not(smt.Eq(v, smt.IntLit(0))), x.notFresh(v))
+		for _, other := range fn.FreeVars[:i] {
+			st.assume(smt.Not(smt.Eq(v, fr.regs[other])))
 		}
 	}
 	if recv := fn.Signature.Recv(); recv != nil && len(fn.Params) > 0 {
@@ -512,6 +527,7 @@ func (x *Exec) loopsOf(fr *frame) map[*ssa.BasicBlock]*load.LoopInfo {
 }
 
 func (x *Exec) execBlock(fr *frame, st *State, b *ssa.BasicBlock, pred *ssa.BasicBlock, depth int) []outcome {
+	fr.cur = b
 	if li, ok := x.loopsOf(fr)[b]; ok {
 		if fr.parent != nil {
 			// loop inside an inlined closure: cut at the header; invariants come from a `loop <closure>:<n>` block if present
@@ -615,6 +631,18 @@ func (x *Exec) assumeInv(fr *frame, st *State, li *load.LoopInfo, lc *gcl.Loop) 
 // havocLoop replaces everything the loop body may assign by fresh symbols.
 func (x *Exec) havocLoop(fr *frame, st *State, li *load.LoopInfo) *State {
 	st = st.clone()
+	defer func() {
+		// the hidden index of a range loop starts at -1 and only counts up
+		for _, in := range li.Header.Instrs {
+			if s, ok := in.(*ssa.Store); ok {
+				if a, ok := s.Addr.(*ssa.Alloc); ok && a.Comment == "rangeindex" {
+					if v, ok := st.cells[a]; ok {
+						st.assume(smt.Le(smt.IntLit(-1), v), smt.Le(v, smt.IntLitS("4611686018427387904")))
+					}
+				}
+			}
+		}
+	}()
 	heaps := map[string]bool{}
 	allHeaps := false
 	closureCalls := false
@@ -630,6 +658,9 @@ func (x *Exec) havocLoop(fr *frame, st *State, li *load.LoopInfo) *State {
 					} else {
 						allHeaps = true
 					}
+				} else if ia, ok := in.Addr.(*ssa.IndexAddr); ok && isVarargsAlloc(ia.X) {
+					// the argument array of a variadic call is allocated in this iteration and only handed to the callee:
+					// filling it changes no location that exists across iterations
 				} else {
 					hs := x.heapsOfAddr(in.Addr)
 					if hs == nil {
@@ -800,6 +831,11 @@ func (x *Exec) heapsOfAddr(a ssa.Value) []string {
 		}
 	}
 	return nil
+}
+
+func isVarargsAlloc(v ssa.Value) bool {
+	a, ok := v.(*ssa.Alloc)
+	return ok && a.Comment == "varargs"
 }
 
 // heapsOfType lists the heaps a store of a value of type t writes, given the heap of the scalar case.
@@ -1080,6 +1116,11 @@ func (x *Exec) val(fr *frame, st *State, v ssa.Value) smt.T {
 		if pv, ok := fr.freeVars[v]; ok && fr.parent != nil {
 			return x.val(fr.parent, st, pv)
 		}
+		for f := fr; f != nil; f = f.parent {
+			if t, ok := f.regs[v]; ok {
+				return t
+			}
+		}
 	case *ssa.Builtin:
 		return smt.IntLit(0)
 	case *ssa.FieldAddr, *ssa.IndexAddr:
@@ -1328,6 +1369,9 @@ func (x *Exec) watchParam(name string, v smt.T, t types.Type) {
 // entryHeapAxiom: what the heap held when the function was entered was allocated before: no fresh references.
 func (x *Exec) entryHeapAxiom(name, sort string, h smt.T) {
 	if _, ok := x.axioms["nofresh:"+name]; ok {
+		return
+	}
+	if !strings.HasPrefix(sort, "(Array ") {
 		return
 	}
 	x.ctx.Fun("fresh$", []string{smt.Int}, smt.Bool)
